@@ -37,6 +37,7 @@ type c04Call struct {
 	beforeN  int64 // cas: n of the returned before-document (-1 none)
 	docs     string
 	readOK   bool
+	rywBad   string // a read inside the transaction that missed the transaction's own write
 }
 
 var c04Kinds = []string{"inc", "inc", "inc", "insert", "cas", "delete", "transfer", "transfer", "read", "read", "count", "push"}
@@ -153,6 +154,23 @@ func c04Exec(env *hEnv, c *c04Call, sess lungo.ISession) {
 			}
 			if _, err := hot.UpdateOne(sc, bson.D{{Key: "_id", Value: int32(c.k2)}}, bson.D{{Key: "$set", Value: bson.D{{Key: "n", Value: nb + 1}}}, {Key: "$push", Value: bson.D{{Key: "log", Value: c.cid}}}}); err != nil {
 				return nil, err
+			}
+			// in every serial execution a read that follows the writes
+			// returns what was written
+			var a2, b2 bson.D
+			if err := hot.FindOne(sc, bson.D{{Key: "_id", Value: int32(c.k)}}).Decode(&a2); err != nil {
+				return nil, err
+			}
+			if err := hot.FindOne(sc, bson.D{{Key: "_id", Value: int32(c.k2)}}).Decode(&b2); err != nil {
+				return nil, err
+			}
+			na2, _ := getD(a2, "n").(int64)
+			nb2, _ := getD(b2, "n").(int64)
+			if na2 != na-1 || nb2 != nb+1 {
+				c.rywBad = fmt.Sprintf("transfer %s wrote n=%d and n=%d inside its transaction and then read n=%d and n=%d", c.cid, na-1, nb+1, na2, nb2)
+			}
+			if n, err := hot.CountDocuments(sc, bson.D{{Key: "log", Value: c.cid}}); err != nil || n != 2 {
+				c.rywBad = fmt.Sprintf("transfer %s: %d documents carry its mark inside its transaction (%v), want 2", c.cid, n, err)
 			}
 			return nil, nil
 		})
@@ -283,6 +301,11 @@ func c04Check(prog [][]*c04Call, env *hEnv, initial *lungo.Catalog, initLen int,
 		for _, c := range cs {
 			byCid[c.cid] = c
 			all = append(all, c)
+		}
+	}
+	for _, c := range all {
+		if c.rywBad != "" {
+			return fmt.Errorf("no serial execution explains: %s", c.rywBad)
 		}
 	}
 	// attribute events to calls
